@@ -42,6 +42,7 @@ func init() {
 		verifPkg + "Fail":       func(fr *frame, a []value) (value, bool) { cur.assertObl(false, concStr(a[0])); return nil, true },
 		verifPkg + "IsSym":      func(fr *frame, a []value) (value, bool) { return hasSym(a[0]), true },
 		verifPkg + "Conc":       mVerifConc,
+		verifPkg + "GlobalWrites": func(fr *frame, a []value) (value, bool) { return len(cur.res.GlobalWrites), true },
 		verifPkg + "SchedTrace": func(fr *frame, a []value) (value, bool) { return len(cur.sched.trace), true },
 
 		"fmt.Fprintf":  mFprintf,
@@ -542,6 +543,9 @@ func toNative(fr *frame, v value) (interface{}, bool) {
 		if hasSym(x.v) {
 			return nil, false
 		}
+		if rt, ok := x.v.(rtype); ok {
+			return typeName(rt.t), true
+		}
 		if m := findMethod(fr.i, x.t, "Error"); m != nil && isErrorType(x.t) {
 			msg := callSSAMethod(fr, m, x.v)
 			if s, ok := msg.(string); ok {
@@ -663,6 +667,14 @@ func (s mapVal) Format(f fmt.State, verb rune) {
 }
 
 func formatOne(fr *frame, spec string, verb byte, arg value) []value {
+	if verb == 'T' {
+		if x, ok := arg.(iface); ok {
+			if x.t == nil {
+				return strBytes("<nil>")
+			}
+			return strBytes(typeName(x.t))
+		}
+	}
 	if n, ok := toNative(fr, arg); ok {
 		return strBytes(fmt.Sprintf(spec, n))
 	}
